@@ -214,6 +214,40 @@ func scenario(seed int64, sn int) (int, int) {
 	} else {
 		close(adminDone)
 	}
+	stopLong := make(chan struct{})
+	longDone := make(chan struct{})
+	if prof.pairs == 0 {
+		// a long-lived reader: repeated reads over many commits / merges / persists
+		go func() {
+			defer close(longDone)
+			r := rand.New(rand.NewSource(seed + 424242))
+			for {
+				select {
+				case <-stopLong:
+					return
+				default:
+				}
+				c := beginTran(r, r.Intn(4) == 0)
+				if c == nil {
+					continue
+				}
+				n := 8 + r.Intn(20)
+				for i := 0; i < n && !c.dead; i++ {
+					td := prof.tables[r.Intn(len(prof.tables))]
+					if r.Intn(3) == 0 {
+						c.lookup(td)
+					} else {
+						c.scan(td)
+					}
+					time.Sleep(time.Duration(r.Intn(1500)) * time.Microsecond)
+				}
+				c.finish()
+				ntran.Add(1)
+			}
+		}()
+	} else {
+		close(longDone)
+	}
 	for c := 0; c < prof.clients && prof.pairs == 0; c++ {
 		wg.Add(1)
 		go func(c int) {
@@ -232,6 +266,8 @@ func scenario(seed int64, sn int) (int, int) {
 		}(c)
 	}
 	wg.Wait()
+	close(stopLong)
+	<-longDone
 	close(stopAdmin)
 	<-adminDone
 	vh.SetGate(nil)
